@@ -34,6 +34,18 @@ SOURCES = ["uid", "euid", "gid", "egid", "username", "eusername", "group", "egro
            "domain", "ipaddr", "systemd_unit_name"]
 DT_FORMATS = [b"", b"%Y-%m-%d", b"%H:%M", b"%s", b"%F %T", b"%j", b"%Y%m%dT%H%M%SZ", b"%%lit%%", b"%y/%m/%d %Hh"]
 CG_SELECTORS = [b"0", b"1", b"4", b"9", b"77", b"memory", b"cpu", b"name=systemd", b"nosuchctl", b"cpuacct"]
+try:
+    # selectors derived from the controllers this sandbox really has: exact names, proper prefixes, extensions, line numbers +-1
+    for _ln in open("/proc/self/cgroup", "rb").read().split(b"\n"):
+        _num, _, _rest = _ln.partition(b":")
+        for _c in _rest.partition(b":")[0].split(b","):
+            if _c:
+                CG_SELECTORS += [_c, _c[:-1], _c[:2], _c + b"x", _c.upper()]
+        if _num.isdigit():
+            CG_SELECTORS += [_num, _num + b"0", b"0" + _num]
+    CG_SELECTORS = sorted(set(x for x in CG_SELECTORS if x and b"}" not in x and b":" not in x))
+except OSError:
+    pass
 UIDS_WITH = [0, 1, 2, 33, 1000, 65534]
 UIDS_WITHOUT = [4242, 70000, 2 ** 31, 1234567]
 GIDS_WITH = [0, 1, 2, 33, 1000, 65534]
